@@ -58,12 +58,17 @@ if "--keep" in sys.argv:
     else:
         dst = os.path.join("/verif/seeded", os.path.basename(seed))
         os.makedirs(dst, exist_ok=True)
-        shutil.copy(os.path.join(seed, "patch.diff"), dst)
-        shutil.copy(demo, dst)
+        if os.path.realpath(dst) != os.path.realpath(seed):
+            shutil.copy(os.path.join(seed, "patch.diff"), dst)
+            shutil.copy(demo, dst)
         try:
             meta = json.load(open(os.path.join(seed, "meta.json")))
         except Exception:
             meta = {}
+        prev = meta.get("confirmed_by_verifier")
+        if prev and not prev.get("detected") and not meta.get("first_version_missed"):
+            # keep the history: the first version of the check did not report this change
+            meta["first_version_missed"] = "the check as it stood when this change arrived stayed silent (exit " + str({k: v.get("exit") for k, v in prev.get("checks", {}).items()}) + "); strengthened since"
         meta["confirmed_by_verifier"] = {
             "ran": "tools/seedtest.py: clean scratch worktree of /repo HEAD -> demo (exit 0) -> git apply patch.diff -> repo test suite -> demo (non-zero) -> ./check <ID> " + tier + " with VERIF_REPO=<worktree> -> git checkout",
             "tests_with_change": res.get("tests"), "demo_without": res.get("demo_without"), "demo_with": res.get("demo_with"),
